@@ -1402,7 +1402,7 @@ class GeoboxTiles:
         """
 
         if bbox.crs is not None:
-            bbox = self._gbox.project(bbox.polygon).boundingbox
+            bbox = self._gbox.project(self._to_own_crs(bbox.polygon)).boundingbox
 
         def _clamp(span: Tuple[float, float], N: int):
             a1, a2 = span
@@ -1420,14 +1420,28 @@ class GeoboxTiles:
 
         return range(y1, y2 + 1), range(x1, x2 + 1)
 
+    def _to_own_crs(self, poly: Geometry) -> Geometry:
+        """
+        Bring a query given in another CRS into the CRS of the grid.
+
+        Edges that are straight in the CRS of the query bend in ours: vertices are added first,
+        about 100 along the longer side of its bounding box (lines and boxes alike).
+        """
+        target_crs = self._gbox.crs
+        if target_crs is None or poly.crs == target_crs:
+            return poly
+        bbox = poly.boundingbox
+        res = max(bbox.span_x, bbox.span_y) / 100
+        return poly.to_crs(
+            target_crs, resolution=res if res > 0 else None, check_and_fix=True
+        )
+
     def _tiles_from_pix_bbox(self, bbox: BoundingBox) -> Iterator[Tuple[int, int]]:
         yy, xx = self.range_from_bbox(bbox)
         yield from itertools.product(yy, xx)
 
     def tiles(self, query: Union[Geometry, BoundingBox]) -> Iterator[Tuple[int, int]]:
         """Return tile indexes overlapping with a given geometry."""
-        target_crs = self._gbox.crs
-
         if isinstance(query, BoundingBox):
             if query.crs is None:
                 # special case for bounding box in pixel domain
@@ -1437,9 +1451,7 @@ class GeoboxTiles:
         else:
             poly = query
 
-        if target_crs is not None and poly.crs != target_crs:
-            # edges that are straight in the CRS of the query bend in ours: add vertices first
-            poly = poly.to_crs(target_crs, resolution="auto", check_and_fix=True)
+        poly = self._to_own_crs(poly)
 
         yy, xx = self.range_from_bbox(poly.boundingbox)
         for idx in itertools.product(yy, xx):
